@@ -36,6 +36,7 @@ from __future__ import annotations
 
 import copy
 import csv as _csv
+import hashlib
 import json
 import math
 import os
@@ -752,6 +753,53 @@ def _exc(e: Exception) -> str:
     return f"{type(e).__name__}: {str(e)[:160]}"
 
 
+def idv_hook(tracks, co: CaseOut) -> None:
+    """the importer's id validators (geff.validate.tracks, called by validate_in_memory_geff) on the ids
+    of this state and on perturbed labellings, against their Lean model (FtModel/IdValidate.lean, family
+    IDV, package R8V: `C14_reached_ids_validate` proves the verdict `true true` for every reached state)"""
+    try:
+        from geff.validate.tracks import validate_lineages, validate_tracklets
+    except Exception:  # noqa: BLE001
+        return
+    g = tracks.graph
+    fd = tracks.features
+    if fd.tracklet_key is None or fd.lineage_key is None or not g.number_of_nodes():
+        return
+    nodes = [int(n) for n in g.nodes]
+    edges = [(int(u), int(v)) for u, v in g.edges]
+    try:
+        tids = [int(g.nodes[n][fd.tracklet_key]) for n in g.nodes]
+        lins = [int(g.nodes[n][fd.lineage_key]) for n in g.nodes]
+    except (KeyError, TypeError, ValueError):
+        return
+    if min(nodes) < 0 or min(tids) < 0 or min(lins) < 0:
+        return
+    h_ = int(hashlib.sha256(repr((nodes, edges, tids)).encode()).hexdigest()[:8], 16)
+    variants = [("as stored", tids, lins)]
+    if len(nodes) >= 2:
+        # deterministic perturbations (outside the reached states): one id copied onto another node /
+        # one node given a fresh id
+        i, j = h_ % len(nodes), (h_ // 7) % len(nodes)
+        t2 = list(tids); t2[i] = tids[j]
+        l2 = list(lins); l2[i] = max(lins) + 1
+        variants.append(("perturbed", t2, l2))
+    for label, tt, ll in variants:
+        ea = np.array(edges, dtype=np.int64).reshape(-1, 2)
+        try:
+            rv = (validate_tracklets(np.array(nodes), ea, np.array(tt))[0], validate_lineages(np.array(nodes), ea, np.array(ll))[0])
+        except Exception as e:  # noqa: BLE001
+            co.count(f"idv:real-raised:{type(e).__name__}")
+            continue
+        line = " ".join(["IDV", str(len(nodes))] + [str(x) for x in nodes] + [str(len(edges))]
+                        + [f"{u} {v}" for u, v in edges] + [str(x) for x in tt] + [str(x) for x in ll])
+        co.model(f"C14 id validators ({label})", line, " ".join("t" if b else "f" for b in rv))
+        co.count(f"idv:{label}:{'t' if rv[0] else 'f'}{'t' if rv[1] else 'f'}")
+        if label == "as stored" and not all(rv):
+            # the ids of a reached state are accepted (theorem C14_reached_ids_validate); a refusal means the
+            # importer would drop and recompute them: the re-imported ids would no longer be those written
+            co.fail("C14|id-validators|reached-state-refused", f"validate_tracklets / validate_lineages on the state's own ids: {rv}")
+
+
 def check_c14(tracks, co: CaseOut, fmts=("csv", "csv-display", "geff", "internal"), model: bool = True) -> None:
     import pandas as pd
     export_to_csv, export_to_geff, import_from_geff, load_tracks, save_tracks, tracks_from_df = _ft()
@@ -765,6 +813,8 @@ def check_c14(tracks, co: CaseOut, fmts=("csv", "csv-display", "geff", "internal
     ax = axis_names(T["ndim"])
     empty = not T["nodes"]
     scale0 = None if tracks.scale is None else list(tracks.scale)
+    if model:
+        idv_hook(tracks, co)
     d = tmpdir()
     try:
         # ---------------------------------------------------------------- CSV (default layout)
@@ -1217,6 +1267,7 @@ def snapshot(tracks) -> dict:
     seg = tracks.segmentation
     return {
         "node-order": tuple(g.nodes),
+        "graph-level-attributes": deep(dict(g.graph)),
         "nodes": {int(n): tuple((k, deep(v)) for k, v in d.items()) for n, d in g.nodes(data=True)},
         "edge-order": tuple(g.edges),
         "edges": {(int(u), int(v)): tuple((k, deep(x)) for k, x in d.items()) for u, v, d in g.edges(data=True)},
@@ -1318,6 +1369,13 @@ def gen_ro_ops(rng: random.Random, tracks, d: Path) -> list[dict]:
     add("export_to_geff", lambda: export_to_geff(tracks, d / "qg"), ["2"] + enc_sel(None), ("geff", d / "qg"))
     add("export_to_geff(subset)", lambda: export_to_geff(tracks, d / "qgs", node_ids=set(s2)),
         ["2"] + enc_sel(s2), ("geff", d / "qgs"), key=f"export_to_geff(subset) {s2}")
+    if tids:
+        # one track exported by handing over the LIVE list of the track lookup (oracle only)
+        tl = rng.choice(tids)
+        add("export_to_csv(node_ids=track_id_to_node[tid])",
+            lambda: export_to_csv(tracks, d / "ql.csv", node_ids=tracks.track_id_to_node[tl]), key=f"export_to_csv(live lookup list {tl})")
+        add("export_to_geff(node_ids=track_id_to_node[tid])",
+            lambda: export_to_geff(tracks, d / "qgl", node_ids=tracks.track_id_to_node[tl]), key=f"export_to_geff(live lookup list {tl})")
     add("save_tracks", lambda: save_tracks(tracks, d / "qi"), ["3"], ("int", d / "qi"))
     add("features", lambda: list(tracks.features.keys()), ["19"], ("keys",))
     add("nodes()", lambda: tracks.nodes(), ["11"], ("nats",))
@@ -1476,6 +1534,7 @@ def snapshot_plain(tracks) -> dict:
     return {
         "class": type(tracks).__name__,
         "node-order": tuple(g.nodes),
+        "graph-level-attributes": deep(dict(g.graph)),
         "nodes": {int(n): tuple((k, deep(v)) for k, v in d.items()) for n, d in g.nodes(data=True)},
         "edge-order": tuple(g.edges),
         "edges": {(int(u), int(v)): tuple((k, deep(x)) for k, x in d.items()) for u, v, d in g.edges(data=True)},
@@ -1669,6 +1728,9 @@ def make_case(rng: random.Random, intensify: bool, prop: str | None = None) -> t
         spec = G.gen_big_case(rng)
         return spec, [], Session(spec)
     spec = G.gen_case(rng)
+    if rng.random() < 0.3:
+        # graph-level attributes (nx.DiGraph(name=…)): part of "the graph" that nothing may modify
+        spec["graph_attrs"] = {"name": "embryo 7, lineage A", "source": "tracker v2", "frames": 5}
     ses = Session(spec)
     if spec["cfg"] in ("pos", "axes") and rng.random() < 0.25:
         # positions of mixed numeric types: an integer plane/row index on the first axis (a Python
